@@ -107,3 +107,50 @@ Proof.
     apply (IH ((st1, cache1), c1) x' Hinv1 (Hag1 Hag)); [|exact Hrun].
     intros k y Hk Hr. apply (Hlim (S k) y); [lia|]. cbn [ss_full_run]. rewrite Hstep. cbn [bind]. exact Hr.
 Qed.
+
+(* ---- the same for SpeedLimitTrainSim ---- *)
+Lemma sl_solve_step_acc (e : Env (F:=R)) pts cl (s s' : SLStateR) :
+  sl_solve_step e pts cl s = Ok s' ->
+  te_of (sl_st s') = train_acc (te_of (sl_st s)) (w_pwr_whl_out (ts_w (sl_st s'))) (k_dt (ts_k (sl_st s))).
+Proof.
+  unfold sl_solve_step. intros H. apply bind_ok in H. destruct H as ([s1 ax] & Hs & H).
+  inversion H; subst s1; clear H. unfold sl_solve_step_aux in Hs.
+  apply bind_ok in Hs. destruct Hs as ([st1 c1] & Hu & H).
+  destruct (update_res_frame _ _ _ _ _ _ _ _ Hu) as (_ & Fw & _ & _ & _ & _ & _ & _ & _ & _ & _ & _ & Fdt).
+  ens H. apply bind_ok in H. destruct H as ([[ic slim] stgt] & Hcs & H).
+  ens H. ens H. apply bind_ok in H. destruct H as ([f_consist fbf] & Hfc & H).
+  ens H. ens H. apply bind_ok in H. destruct H as ([lnk oil] & Hl & H).
+  inversion H; subst; clear H. cbn [sl_st ts_w ts_k k_dt]. 
+  unfold te_of. cbn [ts_w]. rewrite Fw, Fdt. unfold mk_pw, train_acc. cbn. reflexivity.
+Qed.
+
+Theorem sl_full_step_is_tstep (e : Env (F:=R)) pts fmax (s s'' : SLStateR) (c c' : ConsistR) :
+  sl_full_step e pts fmax (s, c) = Ok (s'', c') ->
+  exists p dt, tstep (te_of (sl_st s), c) (p, dt) = Ok (te_of (sl_st s''), c') /\
+               p = w_pwr_whl_out (ts_w (sl_st s'')) /\ dt = k_dt (ts_k (sl_st s)).
+Proof.
+  intros H. destruct (sl_full_step_decomposes _ _ _ _ _ _ _ H) as (s' & c2 & Hc2 & Hs & Hb & Hc3 & _).
+  pose proof (sl_solve_step_acc _ _ _ _ _ Hs) as Hacc.
+  exists (w_pwr_whl_out (ts_w (sl_st s'))), (k_dt (ts_k (sl_st s))). subst s''.
+  split; [|split; reflexivity].
+  unfold tstep, train_consist_step. cbn [fst snd]. rewrite Hc2. cbn [bind]. rewrite Hc3. cbn [bind].
+  change (te_of (sl_st (sl_bump s'))) with (te_of (sl_st s')). rewrite Hacc. reflexivity.
+Qed.
+
+Theorem sl_full_run_levels (e : Env (F:=R)) pts fmax : forall n x x',
+  cinv (snd x) -> levels_agree (te_of (sl_st (fst x)), snd x) ->
+  (forall k y, (1 <= k <= n)%nat -> sl_full_run k e pts fmax x = Ok y -> limits_nonneg (snd y)) ->
+  sl_full_run n e pts fmax x = Ok x' ->
+  cinv (snd x') /\ levels_agree (te_of (sl_st (fst x')), snd x').
+Proof.
+  induction n as [|n IH]; intros x x' Hinv Hag Hlim Hrun; cbn [sl_full_run] in Hrun.
+  - inversion Hrun; subst. auto.
+  - apply bind_ok in Hrun. destruct Hrun as (x1 & Hstep & Hrun).
+    destruct x as [s c]. destruct x1 as [s1 c1]. cbn [fst snd] in *.
+    destruct (sl_full_step_is_tstep _ _ _ _ _ _ _ Hstep) as (p & dt & Ht & _).
+    assert (Hl1 : limits_nonneg c1).
+    { apply (Hlim 1%nat (s1, c1)); [lia|]. cbn [sl_full_run]. rewrite Hstep. reflexivity. }
+    destruct (train_step_levels (te_of (sl_st s), c) (te_of (sl_st s1), c1) p dt Hinv Ht Hl1) as (_ & _ & _ & _ & Hinv1 & Hag1).
+    apply (IH (s1, c1) x' Hinv1 (Hag1 Hag)); [|exact Hrun].
+    intros k y Hk Hr. apply (Hlim (S k) y); [lia|]. cbn [sl_full_run]. rewrite Hstep. cbn [bind]. exact Hr.
+Qed.
